@@ -61,6 +61,15 @@ func graphCase(in map[string]any) map[string]any {
 			faults[idx], _ = v.(string)
 		}
 	}
+	shared := map[int64]bool{}
+	for _, i := range vhlib.Nums(in, "shared_pkg") {
+		shared[i] = true
+	}
+	dup := map[int64]bool{}
+	for _, i := range vhlib.Nums(in, "dup") {
+		dup[i] = true
+		shared[i] = true
+	}
 	override := vhlib.Bool(in, "descriptor_override")
 	name := func(i int64) string {
 		if override && i == 0 {
@@ -74,6 +83,8 @@ func graphCase(in map[string]any) map[string]any {
 		sb.WriteString("syntax = \"proto3\";\n")
 		if override && i == 0 {
 			sb.WriteString("package google.protobuf;\n")
+		} else if shared[i] {
+			sb.WriteString("package shared.pkg;\n")
 		} else {
 			fmt.Fprintf(&sb, "package p%d;\n", i)
 		}
@@ -85,6 +96,9 @@ func graphCase(in map[string]any) map[string]any {
 			sb.WriteString("message FileOptions {}\nmessage MessageOptions {}\nmessage FieldOptions {}\nmessage OneofOptions {}\nmessage EnumOptions {}\nmessage EnumValueOptions {}\nmessage ServiceOptions {}\nmessage MethodOptions {}\nmessage ExtensionRangeOptions {}\n")
 		} else if faults[i] == "link" {
 			fmt.Fprintf(&sb, "message M%d { UndefinedType%d x = 1; }\n", i, i)
+		} else if dup[i] {
+			// the same symbol in several files of one package: whichever is linked second must fail
+			sb.WriteString("message Dup { int32 x = 1; }\n")
 		} else {
 			fmt.Fprintf(&sb, "message M%d { int32 x = 1; }\n", i)
 		}
